@@ -20,12 +20,19 @@ type Case struct {
 	Pred string     `json:"pred"`
 	Args []*rt.Term `json:"args"`
 	More []*rt.Term `json:"more,omitempty"` // same call with further arguments instantiated
+	// Then: a second call of the same predicate made in the same query after the first, sharing every list
+	// argument that is equal in both (built once, by Built: findall | univ | copy); both calls have one answer
+	Then  []*rt.Term `json:"then,omitempty"`
+	Built string     `json:"built,omitempty"`
 }
 
 func (c Case) String() string {
 	s := rt.C(c.Pred, c.Args...).String()
 	if c.More != nil {
 		s += "   and the more instantiated   " + rt.C(c.Pred, c.More...).String()
+	}
+	if c.Then != nil {
+		s += "   followed in the same query by   " + rt.C(c.Pred, c.Then...).String() + " (equal list arguments are one term built by " + c.Built + ")"
 	}
 	return s
 }
@@ -502,6 +509,7 @@ type stats struct {
 	asserted bool
 	nAnswers int
 	metaUsed bool
+	sequel   bool
 }
 
 func check(c Case) (st stats, err error) {
@@ -563,7 +571,110 @@ func check(c Case) (st stats, err error) {
 			}
 		}
 	}
+	if c.Then != nil {
+		if err := checkSequel(i, c, &st); err != nil {
+			return st, err
+		}
+	}
 	return st, nil
+}
+
+// checkSequel: two calls in one query, the second after the first, sharing their equal list arguments as one
+// term: the first call's answer is still the relation's when the second has run (no result aliases another).
+func checkSequel(i *sut.I, c Case, st *stats) error {
+	w1, ok1 := reference(c.Pred, c.Args)
+	w2, ok2 := reference(c.Pred, c.Then)
+	if !ok1 || !ok2 || len(w1) != 1 || len(w2) != 1 {
+		return nil
+	}
+	names := map[int64]string{}
+	var b strings.Builder
+	var args []interface{}
+	shared := map[int]string{}
+	for k := range c.Args {
+		es, proper := properList(c.Args[k])
+		if proper && len(es) > 0 && len(c.Args[k].Vars(nil)) == 0 && rt.Equal(c.Args[k], c.Then[k]) {
+			v := fmt.Sprintf("S%d", k)
+			shared[k] = v
+			switch c.Built {
+			case "findall":
+				fmt.Fprintf(&b, "findall(E%d, member(E%d, ", k, k)
+				render(c.Args[k], names, &args, &b)
+				fmt.Fprintf(&b, "), %s), ", v)
+			case "univ":
+				fmt.Fprintf(&b, "T%d =.. [f|", k)
+				render(c.Args[k], names, &args, &b)
+				fmt.Fprintf(&b, "], T%d =.. [_|%s], ", k, v)
+			default:
+				b.WriteString("copy_term(")
+				render(c.Args[k], names, &args, &b)
+				fmt.Fprintf(&b, ", %s), ", v)
+			}
+		}
+	}
+	if len(shared) == 0 {
+		return nil
+	}
+	// the goals stand in the query text itself (a goal handed to call/1 is compiled again, which copies its
+	// list arguments and so hides any sharing between the two calls)
+	call := func(a []*rt.Term, pre string) {
+		var as []string
+		for k, x := range a {
+			var ab strings.Builder
+			switch {
+			case shared[k] != "":
+				ab.WriteString(shared[k])
+			case isVar(x):
+				fmt.Fprintf(&ab, "%s%d", pre, k)
+			default:
+				render(x, names, &args, &ab)
+			}
+			as = append(as, ab.String())
+		}
+		b.WriteString("'" + c.Pred + "'(" + strings.Join(as, ",") + "), ")
+	}
+	call(c.Args, "X")
+	call(c.Then, "Y")
+	outs := func(a []*rt.Term, pre string) string {
+		var as []string
+		for k, x := range a {
+			switch {
+			case shared[k] != "":
+				as = append(as, shared[k])
+			case isVar(x):
+				as = append(as, fmt.Sprintf("%s%d", pre, k))
+			default:
+				as = append(as, "_") // a ground input: not observed
+			}
+		}
+		return "[" + strings.Join(as, ",") + "]"
+	}
+	b.WriteString("R1 = " + outs(c.Args, "X") + ", R2 = " + outs(c.Then, "Y") + ".")
+	res := i.Query(b.String(), []string{"R1", "R2"}, 3, 3_000_000, args...)
+	if res.Err != nil || len(res.Answers) != 1 {
+		return fmt.Errorf("%s: each call has one answer alone, together: %d answers, err %v", c, len(res.Answers), res.Err)
+	}
+	st.sequel = true
+	r1, _ := res.Answers[0][0].Unlist()
+	r2, _ := res.Answers[0][1].Unlist()
+	same := func(got, want, call []*rt.Term) bool {
+		for k := range call {
+			if shared[k] == "" && !isVar(call[k]) {
+				continue // ground input written as a placeholder: not observed
+			}
+			if key([]*rt.Term{got[k]}) != key([]*rt.Term{want[k]}) {
+				return false
+			}
+		}
+		return true
+	}
+	if len(r1) != len(c.Args) || !same(r1, w1[0], c.Args) {
+		return fmt.Errorf("%s: after the second call the first call's arguments are %s, the relation's tuple is %s", c, rt.Strings(r1), rt.Strings(w1[0]))
+	}
+	if len(r2) != len(c.Then) || !same(r2, w2[0], c.Then) {
+		return fmt.Errorf("%s: the second call's arguments are %s, the relation's tuple is %s", c, rt.Strings(r2), rt.Strings(w2[0]))
+	}
+	return nil
 }
 
 func init() { h.Reg("c16", func(c Case) error { _, err := check(c); return err }) }
@@ -685,7 +796,7 @@ func tuple(t *rapid.T, pred string) []*rt.Term {
 		}
 		return []*rt.Term{rt.C("h", args...), rt.List(append([]*rt.Term{rt.A("h")}, args...), nil)}
 	case "append":
-		x, y := genList(t, 3), genList(t, 3)
+		x, y := genList(t, 6), genList(t, 3)
 		return []*rt.Term{rt.List(x, nil), rt.List(y, nil), rt.List(append(append([]*rt.Term{}, x...), y...), nil)}
 	case "length":
 		x := genList(t, 5)
@@ -766,6 +877,33 @@ func genCase() *rapid.Generator[Case] {
 			c = maskCase(t, pred, tp)
 			if _, ok := reference(pred, c.Args); ok {
 				break
+			}
+		}
+		if u(t, 3, "sequel") == 0 {
+			// a second tuple sharing one list argument with the first; the call mode is redrawn so that both calls
+			// are deterministic: one argument free (the last, else the first), the others bound
+			tp2 := tuple(t, pred)
+			for _, free := range []int{len(tp) - 1, 0} {
+				var lists []int
+				for k := range tp {
+					if es, ok := properList(tp[k]); ok && len(es) > 0 && k != free {
+						lists = append(lists, k)
+					}
+				}
+				if len(lists) == 0 || len(tp2) != len(tp) {
+					continue
+				}
+				k := lists[u(t, len(lists), "sharedarg")]
+				a1, a2 := append([]*rt.Term{}, tp...), append([]*rt.Term{}, tp2...)
+				a2[k] = tp[k]
+				a1[free], a2[free] = rt.V(int64(100+free)), rt.V(int64(200+free))
+				w1, ok1 := reference(pred, a1)
+				w2, ok2 := reference(pred, a2)
+				if ok1 && ok2 && len(w1) == 1 && len(w2) == 1 {
+					c.Args, c.More, c.Then = a1, nil, a2
+					c.Built = []string{"findall", "univ", "copy"}[u(t, 3, "built")]
+					break
+				}
 			}
 		}
 		return c
@@ -917,6 +1055,9 @@ func TestProp(t *testing.T) {
 		r.Eval(1)
 		if st.metaUsed {
 			r.Label("metamorphic_pair")
+		}
+		if st.sequel {
+			r.Label("two_calls_sharing_a_list_argument")
 		}
 		if st.asserted && st.nAnswers >= 2 {
 			r.Label("answers>=2")
